@@ -4,6 +4,7 @@ use crate::refm::eval::RefOutcome;
 use crate::subject::{MachineryError, Outcome};
 
 pub mod c06;
+pub mod c11;
 pub mod c16;
 
 pub trait Check: Sync {
@@ -16,13 +17,14 @@ pub trait Check: Sync {
 pub fn get(id: &str) -> Option<Box<dyn Check>> {
     match id {
         "C06" => Some(Box::new(c06::C06)),
+        "C11" => Some(Box::new(c11::C11)),
         "C16" => Some(Box::new(c16::C16)),
         _ => None,
     }
 }
 
 pub fn all_ids() -> Vec<&'static str> {
-    vec!["C06", "C16"]
+    vec!["C06", "C11", "C16"]
 }
 
 /// does `msg` mention `parts` in this order (each after the previous one)?
